@@ -18,6 +18,22 @@ type CondPath struct {
 	Path  Path
 	Conds []Cond // branch conditions and Extra, negations stripped into the polarity
 	Extra []Cond // the part of Conds that comes from the returned value itself
+	// Sub: the paths taken inside private helpers whose verdicts this path tested
+	// (ResultPathsDeep); Conds already contains their conditions.
+	Sub []CondPath
+}
+
+// Visits: the path (or a helper path below it) passes through block b.
+func (cp CondPath) Visits(b *ssa.BasicBlock) bool {
+	if cp.Path.Contains(b) {
+		return true
+	}
+	for _, s := range cp.Sub {
+		if s.Visits(b) {
+			return true
+		}
+	}
+	return false
 }
 
 // Meaning: the subject values under which the path is taken (frame f).
@@ -27,6 +43,9 @@ func (cp CondPath) Meaning(f Frame) Set {
 		if a, ok := f.Atom(c.V, c.True); ok {
 			s = s.Intersect(a)
 		}
+	}
+	for _, sub := range cp.Sub {
+		s = s.Intersect(sub.Meaning(f))
 	}
 	return s
 }
@@ -149,4 +168,58 @@ func AllHave(paths []CondPath, f func(Cond) bool) bool {
 		}
 	}
 	return true
+}
+
+// ResultPathsDeep: like ResultPaths, but where a path tests the verdict of a
+// private helper with one bool result (`if !stat.markSeen(id, msg) { return
+// false }` — pure or not), the helper's own paths to that verdict are spliced
+// in: one CondPath per combination, whose Conds carry the helper's conditions
+// (with their call chain, see Cond.Path) and whose Sub lists the helper paths.
+func ResultPathsDeep(fn *ssa.Function, idx int, want bool) ([]CondPath, bool) {
+	return resultPathsDeep(fn, idx, want, nil, 0)
+}
+
+func resultPathsDeep(fn *ssa.Function, idx int, want bool, chain []*ssa.Call, depth int) ([]CondPath, bool) {
+	base, ok := ResultPaths(fn, idx, want)
+	if !ok {
+		return nil, false
+	}
+	for i := range base {
+		for j := range base[i].Conds {
+			base[i].Conds[j].Chain = chain
+		}
+	}
+	if depth >= 2 {
+		return base, true
+	}
+	var out []CondPath
+	for _, cp := range base {
+		cur := []CondPath{cp}
+		for _, cd := range cp.Conds {
+			call, isCall := cd.V.(*ssa.Call)
+			if !isCall {
+				continue
+			}
+			h := StaticCallee(&call.Call)
+			if !PrivateHelper(h) || h.Signature.Results().Len() != 1 || h == fn {
+				continue
+			}
+			sub, okh := resultPathsDeep(h, 0, cd.True, append(append([]*ssa.Call(nil), chain...), call), depth+1)
+			if !okh || len(sub) == 0 || len(sub)*len(cur) > 512 {
+				continue
+			}
+			var next []CondPath
+			for _, c0 := range cur {
+				for _, sp := range sub {
+					n := c0
+					n.Conds = append(append([]Cond(nil), c0.Conds...), sp.Conds...)
+					n.Sub = append(append([]CondPath(nil), c0.Sub...), sp)
+					next = append(next, n)
+				}
+			}
+			cur = next
+		}
+		out = append(out, cur...)
+	}
+	return out, true
 }
